@@ -28,6 +28,34 @@ CLAIMED = {
         technique="runtime monitoring: generated message values and byte-level mutants pushed through the real codecs under panic capture, with round-trip / prefix-exactness / TLV-rule oracles",
         text="For every wire message type, generated values (all optional TLVs toggled, boundary-length vectors, all address and feature encodings) are encoded, decoded and compared; the type dispatcher is checked for identity; every strict prefix must fail or re-encode to exactly itself; every single-byte mutant must fail or be stable under re-encoding; unknown odd TLVs must be ignored, unknown even / non-minimal / over-long ones rejected; arbitrary strings never panic. Quick ~2*10^4 values / ~10^7 mutants; thorough 50x.",
         note="Trusted: the library's PartialEq on message structs; Debug rendering for dispatcher comparison. A slice-bounded reader makes reading past the frame impossible by construction; reading past an inner declared length shows up as a round-trip or prefix-exactness failure."),
+    "C02": dict(category="exploration", design_ref="DESIGN.md §6 C02",
+        technique="runtime monitoring: payment monitor pairing every forwarded HTLC (upstream/downstream) from the emission stream, with its own copy of the channel reference models and of monitor-update durability, judged online at every emission, delivery, Watch call and event",
+        text="On a line of three real nodes with two channels per edge, asynchronous/deferred persistence with completions in any order, disconnections and restarts, every forward is judged: downstream offer vs upstream less the advertised fee/CLTV delta and only after the upstream HTLC is irrevocable (F1); never failed upstream after the downstream fulfil was delivered (F2) nor before the downstream HTLC is irrevocably removed (F3); at quiescent points downstream-fulfilled implies upstream-fulfilled (F4); the monitor update carrying the revocation that makes a downstream fulfilment irrevocable is handed out only after the upstream preimage update is durable (F5); PaymentForwarded accounting (F6). Quick 1.2k runs (~4k forwards); thorough 36k runs.",
+        note=WORLD_NOTE + " Channels closed on chain (force close, stale restart) are excluded from the forwarding rules here; on-chain resolution of forwards and the dust-exposure clause are not judged by this check."),
+    "C03": dict(category="exploration", design_ref="DESIGN.md §6 C03",
+        technique="runtime monitoring: per-payment state machine fed by the event tap, the API tap and ground truth from the recipient side (claim_funds calls) plus the monitor's own copy of the channel reference models for 'is any HTLC of this payment still in flight'",
+        text="Every PaymentSent / PaymentFailed / PaymentPathFailed of multi-path, multi-hop, refused and duplicated-id payments under async persistence, event handlers that refuse events, disconnections and sender restarts from any stored manager is judged: truthful PaymentSent (preimage, recipient released it, fee and amount as carried by the sender's HTLCs), PaymentSent whenever the claim settled, PaymentFailed when nothing is pending and nothing settled and never while/before an HTLC of the payment is in flight, exactly one terminal event without restart and never Sent+Failed, forgotten payments have nothing in flight, duplicate ids refused, failed path names a channel adjacent to the failing node. Quick 1.2k runs (~2*10^4 terminal events); thorough 36k runs.",
+        note=WORLD_NOTE + " Payments whose path crosses a channel closed on chain are excluded from the balance/pending rules (the contradiction rule P4 still applies); on-chain settlement of payments is not judged by this check."),
+    "C04": dict(category="exploration", design_ref="DESIGN.md §6 C04",
+        technique="runtime monitoring: recipient-side oracle with the harness' table of issued (hash, secret, amount) registrations as ground truth, judging every PaymentClaimable, preimage release, claim and fail-back against the parts that have irrevocably arrived (own copy of the channel reference models)",
+        text="Sends with a flipped secret bit, another registration's secret, less than the registered amount, a declared total never reached, staged parts, disagreeing totals and exact amounts, over 1-3 parts and parallel channels with timer ticks in between: PaymentClaimable only for authentic, agreeing, complete parts with a non-empty claim window (I1); claim_funds below the deadline fulfils every part and reports PaymentClaimed for the announced amount (I2); refused/incomplete parts are failed back by the final quiescent point (I3); never a strict subset of parts fulfilled (I4). Quick 1.2k runs (~10^4 claimable events); thorough 36k runs.",
+        note=WORLD_NOTE + " The claim-deadline boundary (heights around the deadline, parts with different expiries) and skimmed-fee (accept_underpaying_htlcs) payments are not driven by this workload."),
+    "C14": dict(category="exploration", design_ref="DESIGN.md §6 C14",
+        technique="runtime monitoring: pure-function harness over the real onion construction / peeling / failure code with an independent route, size and BOLT-4 classification oracle, bit-flip injection at every hop",
+        text="For ~2*10^4 (quick) / ~10^6 (thorough) generated routes of 1..25 hops with boundary values, recipient fields up to the size limit, keysend, custom TLVs, blinded and trampoline tails: build succeeds iff the payloads fit (R1), every hop peels exactly its instructions and a 1366-byte next packet (R2-R4), the last hop sees exactly the recipient fields (R5), every sampled / swept single-bit flip of packet, key or payment hash is refused by that hop (R6), failures from every hop position/code/data length are attributed to that hop with the right consequences and hold times, also through legacy hops and with in-flight corruption (R7-R9), blinded forwards/receives (R10).",
+        note="Trusted: the check's own route sums, TLV size model and BOLT-4 flag classifier; hooks verif_build/wrap/decode_failure_packet (feature _verif). Not judged: fulfil-side attribution data, multi-hop trampoline, failure code value itself (not observable in production builds). Observation (off by default, tramp_keysend=1): a keysend preimage over a trampoline tail is written as TLV 20 which the recipient's reader rejects; trampoline tails are outside the property's quantifier."),
+    "C18": dict(category="exploration", design_ref="DESIGN.md §6 C18",
+        technique="runtime monitoring: builders driven over their parameter space with round-trip, own-recomputed-signature, mutation (checksum-preserving and not), TLV-rule and stateless-metadata oracles under panic capture",
+        text="BOLT-11 invoices and BOLT-12 offers/requests/invoices/refunds/static invoices are built, round-tripped with full accessor snapshots, their signed hash / merkle root recomputed by the check, mutated in every character (checksum must fail), in every data symbol / amount / timestamp / field with the checksum recomputed (parse error, unrelated recovered key, or identical signed content), in single bits of signed BOLT-12 streams (must not parse), extended with unknown odd/even records, and verified under right and wrong key material / against altered offers; arbitrary input never panics. Quick 400 flows (~10^6 mutants); thorough 50x.",
+        note="Known findings F10 (payer cannot verify the invoice for its own request when the offer carries an unknown odd record), F11 (offer metadata record not covered for path-derived offers), F12 (builder inputs the wire format cannot carry). Not driven: ln/invoice_utils through a ChannelManager, Amount::Currency offers (not buildable through the public API)."),
+    "C19": dict(category="exploration", design_ref="DESIGN.md §6 C19",
+        technique="runtime monitoring: client-boundary history recording with a per-key linearizability checker (sequential register model), list interval rules and torn-value detection on real threads, natively, under ThreadSanitizer and under Miri; process-kill crash test with an admissibility oracle; offline syscall-order checker over strace logs; crash-prefix enumeration of the incremental monitor persister over a recording store",
+        text="FilesystemStore (v1, v2; sync and async API) is hammered by 2-8 threads on 1-3 keys; every history (call/return ticks from one atomic clock) is checked per key against a sequential map, list results against interval obligations, every read for torn/mixed values, async writes for issue-order effect. The same binary runs under TSan and (v1) Miri. Children doing acknowledged operations are SIGKILLed at seeded instants and the reopened directory judged (last acknowledged or later issued value, no temp artefacts). strace logs are checked for fsync(tmp) -> rename -> fsync(dir). MonitorUpdatingPersister: see stage c19_monitor_persister.",
+        note="Trusted: the checker (self-tested at startup on fixed good/bad histories), the logical clock. Thread schedules and kill instants are not reproducible; the recorded history is the witness. Power loss is approximated by syscall order on this platform; Windows paths are not exercised; v2 is excluded under Miri (futimens)."),
+    "C20": dict(category="exploration", design_ref="DESIGN.md §6 C20",
+        technique="runtime monitoring: recording Listen implementations with their own chain stacks checked online against generated proof-of-work block trees, over a fault-injecting BlockSource",
+        text="~2.4*10^5 (quick) / ~1.2*10^7 (thorough) cases: after every poll_best_tip / synchronize_listeners the listeners' notifications must be one disconnect to their fork point followed by connects in ascending height on top of their own tip (L1, L2); fault-free polls move listeners exactly when the source's tip has strictly more work and report it truthfully (L3); with injected errors, bad-PoW / foreign / altered headers and blocks nothing refusable reaches a listener, no block is skipped or repeated, and the next fault-free poll converges (L4); start-up sync brings listeners at different stale/forked blocks to one tip (L5); header-cache use (L6).",
+        note="Known finding F13 (height/chainwork claims of a source not validated on header-cache hits) is exercised by a separate stage (lies=1) and collapses into one signature. Not judged: several block sources, real async concurrency, chainwork near 2^256. Observation: a block with its last transaction duplicated passes check_merkle_root (counter only)."),
     "C17": dict(category="exploration", design_ref="DESIGN.md §6 C17",
         technique="runtime monitoring: reference-model monitor (latest-timestamp-wins map with signature/chain/capacity/removal-tracking rules) run in lock step with the real NetworkGraph over generated adversarial gossip sequences; order-permutation and serialization round-trip oracles",
         text="Generated gossip with real secp256k1 keys is delivered to NetworkGraph through the signed and unsigned public APIs; a ~100-line reference predicts accept/reject of every message and the final graph for the exact sequence (G1), admissible permutations with duplication of the valid subset must converge to one graph (G2), permanent-failure and stale-pruning operations are mirrored (G3), and every final graph must survive write/read (G4). Quick ~6.4k universes / ~2*10^6 predictions / 5*10^4 orders; thorough 50x.",
